@@ -100,6 +100,8 @@ class Acc:
             self.violation(v["key"], v["summary"], v["replay"])
         self.known_hits.update(o.known_hits)
         self.notes += o.notes[:20]
+        if getattr(o, "timing", None):
+            self.timings = getattr(self, "timings", []) + [o.timing]
 
 
 # ------------------------------------------------------------------ check context
@@ -152,6 +154,8 @@ class Check:
             cov["counters"] = dict(acc.extra)
         if acc.notes:
             cov["notes"] = acc.notes[:40]
+        if getattr(acc, "timings", None):
+            cov["slowest_modules_s"] = sorted(acc.timings, key=lambda t: -t[1])[:6]
         cov.update(self.extra_coverage)
         ev = {
             "property_id": self.pid, "tier": self.tier, "seed": self.seed, "level": self.level,
